@@ -14,6 +14,18 @@
 #include <symengine/symengine_config.h>
 #include <symengine/symengine_assert.h>
 
+// Verification hook (deterministic simulation, see /verif): a yield point for
+// the simulator's scheduler in front of every statement that touches a
+// reference count, a cached hash or the Dummy counter. Compiled in only with
+// -DSYMENGINE_VERIF_SIM; expands to nothing otherwise.
+#if defined(SYMENGINE_VERIF_SIM)
+extern "C" void symengine_verif_sim_point(int kind, const void *addr);
+#define SYMENGINE_VERIF_SIM_POINT(kind, addr)                                  \
+    symengine_verif_sim_point((kind), (const void *)(addr));
+#else
+#define SYMENGINE_VERIF_SIM_POINT(kind, addr)
+#endif
+
 #if defined(WITH_SYMENGINE_RCP)
 
 #if defined(WITH_SYMENGINE_THREAD_SAFE)
@@ -114,11 +126,13 @@ public:
     explicit RCP(T *p) : ptr_(p)
     {
         SYMENGINE_ASSERT(ptr_ != nullptr)
+        SYMENGINE_VERIF_SIM_POINT(0, ptr_)
         (ptr_->refcount_)++;
     }
     // Copy constructor
     RCP(const RCP<T> &rp) : ptr_(rp.ptr_)
     {
+        SYMENGINE_VERIF_SIM_POINT(0, ptr_)
         if (not is_null())
             (ptr_->refcount_)++;
     }
@@ -126,6 +140,7 @@ public:
     template <class T2>
     RCP(const RCP<T2> &r_ptr) : ptr_(r_ptr.get())
     {
+        SYMENGINE_VERIF_SIM_POINT(0, ptr_)
         if (not is_null())
             (ptr_->refcount_)++;
     }
@@ -143,6 +158,7 @@ public:
     }
     ~RCP() SYMENGINE_NOEXCEPT
     {
+        SYMENGINE_VERIF_SIM_POINT(1, ptr_)
         if (ptr_ != nullptr and --(ptr_->refcount_) == 0)
             delete ptr_;
     }
@@ -182,8 +198,10 @@ public:
     RCP<T> &operator=(const RCP<T> &r_ptr)
     {
         T *r_ptr_ptr_ = r_ptr.ptr_;
+        SYMENGINE_VERIF_SIM_POINT(0, r_ptr_ptr_)
         if (not r_ptr.is_null())
             (r_ptr_ptr_->refcount_)++;
+        SYMENGINE_VERIF_SIM_POINT(1, ptr_)
         if (not is_null() and --(ptr_->refcount_) == 0)
             delete ptr_;
         ptr_ = r_ptr_ptr_;
@@ -197,6 +215,7 @@ public:
     }
     void reset()
     {
+        SYMENGINE_VERIF_SIM_POINT(1, ptr_)
         if (not is_null() and --(ptr_->refcount_) == 0)
             delete ptr_;
         ptr_ = nullptr;
@@ -316,6 +335,7 @@ public:
     unsigned int use_count() const
     {
 #if defined(WITH_SYMENGINE_RCP)
+        SYMENGINE_VERIF_SIM_POINT(2, this)
         return refcount_;
 #else
         return weak_self_ptr_.strong_count();
